@@ -22,6 +22,7 @@ type GenOpts struct {
 	MaxFiles    int  // per repository
 	SelfArg     bool // allow called reusable workflows to be arguments themselves
 	PathConfigs bool // configs with `paths` ignore entries
+	Anomalies   bool // odd but legal disk shapes: empty files, an empty config, a directory without .git next to the repositories
 	Symlinks    bool // some workflow files are symbolic links to files outside their repository
 	Clone       bool // some worlds reuse one workflow text for several files (same code paths collide: shared tables, caches)
 }
@@ -218,6 +219,28 @@ func GenMulti(c *Chooser, o GenOpts) *MultiWorld {
 					all = append(all, p)
 				}
 			}
+		}
+	}
+	if o.Anomalies && c.Weighted("world.anomaly", 1, 3) {
+		switch c.Int("world.anomalykind", 5) {
+		case 0: // an empty workflow file among the arguments
+			p := mw.Repos[0].Root + "/.github/workflows/empty.yml"
+			disk.Put(p, []byte(""))
+			all = append(all, p)
+		case 1: // a workflow made of a comment and blank lines only
+			p := mw.Repos[0].Root + "/.github/workflows/blank.yml"
+			disk.Put(p, []byte("# nothing here\n\n\n"))
+			all = append(all, p)
+		case 2: // an empty configuration file
+			disk.Put(mw.Repos[0].Root+"/.github/actionlint.yaml", []byte(""))
+		case 3: // a directory that looks like a repository but has no .git: not a project
+			disk.MkdirAll("/w/nogit/.github/workflows")
+			disk.Put("/w/nogit/.github/workflows/a.yml", []byte("on: push\njobs:\n  j:\n    runs-on: ubuntu-latest\n    steps:\n      - uses: ./act\n      - run: echo ${{ vars.X }}\n"))
+			all = append(all, "/w/nogit/.github/workflows/a.yml")
+		case 4: // a non-YAML file with a workflow extension (binary-looking content)
+			p := mw.Repos[0].Root + "/.github/workflows/bin.yml"
+			disk.Put(p, []byte("\x00\x01\xff\xfe{[:\n\t- ? !!binary |\n"))
+			all = append(all, p)
 		}
 	}
 	if o.Loose && c.Weighted("world.loose", 1, 4) {
